@@ -1,6 +1,7 @@
 package sim
 
 import (
+	"os"
 	"fmt"
 	"reflect"
 	"sync"
@@ -95,7 +96,12 @@ func objOf(args []interface{}) interface{} {
 	return args[0]
 }
 
+var hubDebug = os.Getenv("VH_DEBUG") == "2"
+
 func (h *Hub) at(point string, args ...interface{}) {
+	if hubDebug {
+		fmt.Fprintf(os.Stderr, "HUB %s %v\n", point, args)
+	}
 	h.mu.Lock()
 	h.seq++
 	h.counts[ckey{point, nil}]++
